@@ -18,7 +18,7 @@ LEVEL = 'exploration'
 RULE = ('full product: 14 list kinds (single / same layout / nested, interleaved and disjoint configuration subsets / replica '
         'subsets / two ensembles / covariance inputs dim 1..3 shared or not / count data with zeros / a sample equal to the '
         'mean / strided and large configuration numbers / 4-entry mixtures) x separator_insertion {True, None, False, int, str} '
-        'x {string, file gz, file plain} for dobs; every 2- and 3-subset (thorough: 4-subset) of a 17-observable pool (incl. trap pairs: same length and end points, different interior) in one file; 6 list kinds x {None, int, str} x {gz, plain} for pobs; all ordered pairs of 14 layouts of one ensemble in one pobs file (refused or faithful).  Non-trivial = '
+        'x {string, file gz, file plain} for dobs; every 2- and 3-subset (thorough: 4-subset) of a 17-observable pool (incl. trap pairs: same length and end points, different interior) in one file; 6 list kinds x {None, int, str} x {gz, plain} for pobs; all ordered pairs of 14 layouts of one ensemble in one pobs file (refused or faithful); pobs requests carrying covariance inputs (refused or faithful).  Non-trivial = '
         'every case except the single-observable single-chain list')
 ASSUMPTIONS = ['names are compared exactly when the separator mode restores the "|", else after removing "|" (documented treatment)',
                'covariance matrices / gradients to 1e-12 relative (the format prints 15 digits), fluctuations to 1e-13 of the chain scale']
@@ -299,6 +299,28 @@ def run_pobs(pe, acc, case, d):
             acc.fail('pobs:outside-domain-accepted:' + nm, dict(case, bad=nm), 'pobs export accepted %s' % nm)
         except Exception:
             acc.ok(('pobs-ref', case['list'], nm), True, 'refused')
+    # the pobs format has no place for covariance inputs: an observable carrying one is refused, or (if a writer learns to
+    # store it) comes back with it -- it is never written with the covariance input silently dropped
+    cv = pe.cov_Obs(1.0, 0.01, 'cv')
+    a2 = prim(pe, {'A|r1': 'c8', 'A|r2': 'c12'}, 'pc')
+    for nm, lst in (('mc-times-cov', [a * cv]), ('second-entry-with-cov', [a, a + cv]), ('first-entry-with-cov', [a * cv, a]), ('replicas-times-cov', [a2 * cv]),
+                    ('two-cov', [a * cv * pe.cov_Obs(2.0, 0.04, 'cw')])):
+        for gz in (True, False):
+            sub = dict(case, bad=nm, gz=gz)
+            try:
+                fn = os.path.join(d, 'pcov')
+                pe.input.dobs.write_pobs(lst, fn, 'name', gz=gz)
+                back = pe.input.dobs.read_pobs(fn, gz=gz, separator_insertion=1)
+            except Exception:
+                acc.ok(('pobs-cov', case['list'], nm, gz), True, 'refused')
+                continue
+            bad = '%d observables -> %d' % (len(lst), len(back)) if len(back) != len(lst) else None
+            for i, (x, y) in enumerate(zip(lst, back)):
+                bad = bad or same(x, y, name_map(1, list(x.deltas)), pe)
+            if bad:
+                acc.fail('pobs:covariance-input-dropped', sub, 'write_pobs accepted %s (covariance input next to the Monte Carlo chains) and read_pobs gives back something else: %s' % (nm, bad))
+            else:
+                acc.ok(('pobs-cov', case['list'], nm, gz), True, 'pobs-roundtrip')
     acc.sample({'kind': 'pobs', 'list': case['list'], 'modes': ['None', '1', "'r'"]})
 
 
